@@ -200,6 +200,15 @@ def ssp(check, proj):
             check.ok("RK-SSP", c.qualname, "convex combination of forward-Euler steps (SSP coefficient >= 1)", stepf.loc())
 
 
+def driver_cfl(check):
+    """the CFL premise of the statement concerns the step a solve actually takes: the minimum over cells of
+    CFL*dx/lambda of the CURRENT state, in both public drivers (same obligations as C18 DRV-DT-MIN)"""
+    from ..driver_rules import analyse_solve
+    from .c07 import report
+    res, _ = analyse_solve(check.proj)
+    report(check, res, ("DRV-DT-MIN",))
+
+
 def body(check):
     proj = check.proj
     check.explanation = ("static analysis, PREMISE LEVEL: decides necessary conditions of the positivity property that are visible in "
@@ -214,6 +223,7 @@ def body(check):
     # dx*dy/(dx+dy)): same obligation as C18 DT-CELLSIZE
     n0 = len(check.obs)
     check.guarded("CFL-CELLSIZE", "modeldisc", lambda: c18.cellsize(check))
+    check.guarded("DRV-DT-MIN", "integration.timemodel", lambda: driver_cfl(check))
     for o in check.obs[n0:]:
         if o.rule == "DT-CELLSIZE":
             o.rule = "CFL-CELLSIZE"
